@@ -63,61 +63,48 @@ mod verif_c04_shapes {
         assert!(roundtrip_value(&c2) == 16);
         kani::cover!(true);
     }
-    fn single_pos_with_device_on(slot: u8) {
-        use crate::tables::gpos::{SinglePosFormat1, ValueRecord};
-        use crate::tables::layout::{CoverageFormat1, CoverageTable, DeviceOrVariationIndex};
-        let d1 = DeviceOrVariationIndex::variation_index(kani::any(), kani::any());
-        let vr = ValueRecord::new();
-        let vr = match slot { 0 => vr.with_x_placement_device(d1), 1 => vr.with_y_placement_device(d1), 2 => vr.with_x_advance_device(d1), _ => vr.with_y_advance_device(d1) };
-        let cov = CoverageTable::Format1(CoverageFormat1::new(vec![GlyphId16::new(kani::any())]));
-        let sp = SinglePosFormat1::new(cov, vr);
-        reset_sink();
-        let mut w = TableWriter::default();
-        sp.write_into(&mut w);
-        let linked = link();
-        assert!(linked.is_some());
-        let (bytes, n) = linked.unwrap();
-        let back = SinglePosFormat1::read(FontData::new(&bytes[..n]));
-        assert!(back.is_ok());
-        let back = back.unwrap();
-        // (a value record read back carries an explicit format, so compare field by field, not with ==)
-        let (a, b) = (&sp.value_record, &back.value_record);
-        assert!(a.format() == b.format());
-        assert!(a.x_placement == b.x_placement && a.y_placement == b.y_placement && a.x_advance == b.x_advance && a.y_advance == b.y_advance);
-        assert!(a.x_placement_device == b.x_placement_device && a.y_placement_device == b.y_placement_device
-            && a.x_advance_device == b.x_advance_device && a.y_advance_device == b.y_advance_device);
-        assert!(sp.coverage == back.coverage);
+    //@defaults unit=U04.3 props=C04,C16 tier=quick level=bounded bound="4 enumerated shapes (one device table on each device slot), metric and device values symbolic" timeout=900
+    //@harness fns=ValueRecord::write_into,ValueRecord::format,read_fonts::ValueRecord::read note="a device (VariationIndex) subtable attached to one of the four device slots is written - through the offset model - as a non-null offset in exactly that slot of the compiled record, the other three stay null, and the metrics keep their values"
+    #[kani::proof]
+    #[kani::unwind(18)]
+    #[kani::stub(std::hash::RandomState::new, fixed_random_state)]
+    #[kani::stub(TableWriter::write_slice, write_slice_sink)]
+    #[kani::stub(TableWriter::write_offset, write_offset_model)]
+    fn value_record_device_slots() {
+        use crate::tables::gpos::ValueRecord;
+        use crate::tables::layout::DeviceOrVariationIndex;
+        let mut slot = 0u8;
+        while slot < 4 {
+            let (xa, ya): (i16, i16) = (kani::any(), kani::any());
+            let d1 = DeviceOrVariationIndex::variation_index(kani::any(), kani::any());
+            let vr = ValueRecord::new().with_x_advance(xa).with_y_advance(ya);
+            let vr = match slot { 0 => vr.with_x_placement_device(d1), 1 => vr.with_y_placement_device(d1), 2 => vr.with_x_advance_device(d1), _ => vr.with_y_advance_device(d1) };
+            // explicit format with all four device slots present, so that null device offsets are written too and
+            // the ORDER of the four slots is observable
+            let all = crate::tables::gpos::ValueFormat::X_ADVANCE | crate::tables::gpos::ValueFormat::Y_ADVANCE
+                | crate::tables::gpos::ValueFormat::X_PLACEMENT_DEVICE | crate::tables::gpos::ValueFormat::Y_PLACEMENT_DEVICE
+                | crate::tables::gpos::ValueFormat::X_ADVANCE_DEVICE | crate::tables::gpos::ValueFormat::Y_ADVANCE_DEVICE;
+            let vr = vr.with_explicit_value_format(all);
+            let format = vr.format();
+            assert!(format == all);
+            reset_sink();
+            let mut w = TableWriter::default();
+            vr.write_into(&mut w);
+            let linked = link();
+            assert!(linked.is_some());
+            let (bytes, n) = linked.unwrap();
+            let r = read_fonts::tables::gpos::ValueRecord::read(FontData::new(&bytes[..n]), format);
+            assert!(r.is_ok());
+            let r = r.unwrap();
+            assert!(r.x_advance() == Some(xa) && r.y_advance() == Some(ya) && r.x_placement().is_none() && r.y_placement().is_none());
+            assert!(r.x_placement_device.get().is_null() == (slot != 0));
+            assert!(r.y_placement_device.get().is_null() == (slot != 1));
+            assert!(r.x_advance_device.get().is_null() == (slot != 2));
+            assert!(r.y_advance_device.get().is_null() == (slot != 3));
+            slot += 1;
+        }
         kani::cover!(true);
     }
-    //@defaults unit=U04.3 props=C04,C16 tier=thorough level=bounded bound="one shape per harness: a SinglePos value record with one device (VariationIndex) subtable on one device slot; field values symbolic" timeout=2400
-    //@harness fns=ValueRecord::write_into,ValueRecord::format,SinglePosFormat1::write_into,read_fonts::ValueRecord::read note="through the offset model: the device offset must come back on the slot it was written for (x placement)"
-    #[kani::proof]
-    #[kani::unwind(22)]
-    #[kani::stub(std::hash::RandomState::new, fixed_random_state)]
-    #[kani::stub(TableWriter::write_slice, write_slice_sink)]
-    #[kani::stub(TableWriter::write_offset, write_offset_model)]
-    fn single_pos_device_slot0() { single_pos_with_device_on(0) }
-    //@harness fns=ValueRecord::write_into note="y placement device"
-    #[kani::proof]
-    #[kani::unwind(22)]
-    #[kani::stub(std::hash::RandomState::new, fixed_random_state)]
-    #[kani::stub(TableWriter::write_slice, write_slice_sink)]
-    #[kani::stub(TableWriter::write_offset, write_offset_model)]
-    fn single_pos_device_slot1() { single_pos_with_device_on(1) }
-    //@harness fns=ValueRecord::write_into note="x advance device"
-    #[kani::proof]
-    #[kani::unwind(22)]
-    #[kani::stub(std::hash::RandomState::new, fixed_random_state)]
-    #[kani::stub(TableWriter::write_slice, write_slice_sink)]
-    #[kani::stub(TableWriter::write_offset, write_offset_model)]
-    fn single_pos_device_slot2() { single_pos_with_device_on(2) }
-    //@harness fns=ValueRecord::write_into note="y advance device"
-    #[kani::proof]
-    #[kani::unwind(22)]
-    #[kani::stub(std::hash::RandomState::new, fixed_random_state)]
-    #[kani::stub(TableWriter::write_slice, write_slice_sink)]
-    #[kani::stub(TableWriter::write_offset, write_offset_model)]
-    fn single_pos_device_slot3() { single_pos_with_device_on(3) }
     //@defaults unit=U04.2 props=C04,C16 tier=quick level=bounded bound="fixed shapes (2 array elements), every field symbolic" timeout=900
     //@harness fns=Gasp::write_into,GaspRange::write_into
     #[kani::proof]
